@@ -3,6 +3,7 @@
 #include <Eigen/Dense>
 #include <Eigen/Sparse>
 #include <complex>
+#include <type_traits>
 #include "framework.hpp"
 #include "oracle.hpp"
 
@@ -200,10 +201,18 @@ int hostile_shift_class(vf::Rng& r, Eigen::Matrix<S, Eigen::Dynamic, Eigen::Dyna
     return cls;
 }
 
+// the value bytes of a vector (x87 long double: 10 significant bytes per real component; the 6 padding bytes are defined by no store)
 template <class V> std::vector<unsigned char> bytes_of(const V& v)
 {
+    using S = typename V::Scalar;
+    using R = typename Eigen::NumTraits<S>::Real;
+    const size_t sig = (std::is_same<R, long double>::value && sizeof(long double) == 16) ? 10 : sizeof(R);
+    const size_t nreal = sizeof(S) / sizeof(R) * (size_t) v.size();
     const unsigned char* p = (const unsigned char*) v.data();
-    return std::vector<unsigned char>(p, p + sizeof(typename V::Scalar) * (size_t) v.size());
+    std::vector<unsigned char> out;
+    out.reserve(nreal * sig);
+    for (size_t i = 0; i < nreal; i++) out.insert(out.end(), p + i * sizeof(R), p + i * sizeof(R) + sig);
+    return out;
 }
 
 }  // namespace vwg
